@@ -8,7 +8,7 @@ Lemma inv_init : forall h0, Inv h0 (init h0).
 Proof.
   intro h0. split.
   - constructor; simpl; intros; contradiction.
-  - left. split; simpl; auto. intros ? [].
+  - left. split; simpl; auto.
 Qed.
 
 Lemma step_catchup : forall st canon latest fin1 chunk fl fin2 b dl ok,
@@ -166,8 +166,8 @@ Lemma obs_never_lemma : forall A h0 tr,
   let st := run h0 tr in
   obs_never_ok h0 (s_live st) (s_fmax st) (obs_of (s_head st)) = true.
 Proof.
-  intros A h0 tr Hn Ho Henv st. unfold obs_never_ok.
-  destruct (never_above_lemma A h0 tr Hn Ho Henv) as [H|(h & f & Hh & Hf & Hle & Hin)]; fold st in *.
+  intros A h0 tr Hn Ho Henv st. subst st. unfold obs_never_ok.
+  destruct (never_above_lemma A h0 tr Hn Ho Henv) as [H|(h & f & Hh & Hf & Hle & Hin)].
   - rewrite H. apply orb_true_iff. left. destruct h0; simpl; auto using pair_eqb_refl.
   - apply orb_true_iff. right. rewrite Hh, Hf. simpl. apply existsb_exists.
     exists h. split; auto. rewrite pair_eqb_refl. rewrite andb_true_r. lia.
